@@ -59,6 +59,10 @@ add("C18", "runtime monitoring: boundary monitors on the nine cost-metric classe
     "Generated circuits (solver vocabulary with >=1 emitter for all nine metrics; full alphabet for depth, per-register depth, emitter count and emitter-emitter CNOT count), with and without wrappers, identities, resets and with whole operation classes missing, are evaluated by every metric class constructed with default arguments and with an explicit penalty; each value is compared with the quantity computed from the specification, and the circuit is checked to be untouched afterwards.",
     TRUST + "CZ / Z-measurement are not judged for the unitary / measurement counts (not determined by the documentation).", "DESIGN.md section 5, C18")
 
+add("C14", "runtime monitoring: boundary monitors on the exporters / importers with (i) a structural and compiled-state comparison of the re-imported circuit against the harness' specification, (ii) an independent standard openQASM 2 reader (qiskit.qasm2 + dense reference) simulating the exported text branch by branch, (iii) textual determinism across exports, copies and processes with a different PYTHONHASHSEED",
+    "Generated circuits over all exportable operations (wrappers, PhaseDagger, identities, classically controlled gates, measure-and-reset, register indices >= 10, add and insert_at placement) are exported and re-imported through openQASM and JSON; registers, per-register operation sequences, the attributes the compilers read and the forced-outcome compiled states must agree; the text is parsed by qiskit's openQASM 2 parser and every outcome branch (up to 8 per circuit) simulated by the dense reference must equal the reference semantics of the specification.",
+    TRUST + "qiskit.qasm2 is trusted as 'standard openQASM 2.0 semantics'.", "DESIGN.md section 5, C14")
+
 NOT_YET = {
 }
 
